@@ -161,6 +161,7 @@ type peerConn struct {
 
 	q       []outItem
 	delayed delayHeap
+	onesLeft int
 	dseq    uint64
 	dsig    chan struct{}
 	qsig    chan struct{}
@@ -207,6 +208,7 @@ type peerConn struct {
 func (w *run) newPeerConn(c net.Conn, idx int) *peerConn {
 	pc := &peerConn{w: w, idx: idx, c: c, cfg: w.sc.Peer, qsig: make(chan struct{}, 1), dsig: make(chan struct{}, 1), done: make(chan struct{}), changed: make(chan struct{}),
 		streams: map[uint32]*peerStream{}, rpcCount: map[uint32]int{}, iws: 65535, cliIWS: 65535, cliMFS: 16384, pingAcks: map[[8]byte]time.Time{}, cliRst: map[uint32]http2.ErrCode{}}
+	pc.onesLeft = 400
 	pc.fr = http2.NewFramer(c, c)
 	pc.fr.SetMaxReadFrameSize(1<<24 - 1)
 	pc.fr.ReadMetaHeaders = hpack.NewDecoder(4096, nil)
@@ -561,6 +563,19 @@ func (pc *peerConn) autoGrant(g Grant, st *grantState, n int64, remain func() in
 		}
 	case "ones":
 		k := n
+		if pc.onesLeft <= 0 {
+			// enough one-byte bursts for one connection (a window that is given
+			// back byte by byte makes the sender trickle): from now on give
+			// everything back when the window is used up
+			st.acc += n
+			if remain() <= 0 {
+				v := st.acc
+				st.acc = 0
+				do(func() { grant(v) })
+			}
+			return
+		}
+		pc.onesLeft -= 40
 		if k > 40 {
 			v := n - 40
 			k = 40
@@ -956,9 +971,10 @@ func (pc *peerConn) runScript(ps *peerStream, script []SOp) {
 			sid := ps.id
 			if op.FSid >= 0 {
 				sid = uint32(op.FSid)
+			} else if op.FSid < -1 {
+				sid = ps.id + uint32(-op.FSid) - 1 // relative to this stream
 			}
-			b, _ := hex.DecodeString(op.Hex)
-			pc.put(outItem{kind: 'F', ftype: http2.FrameType(op.FType), fflags: http2.Flags(op.FFlags), sid: sid, data: b})
+			pc.put(outItem{kind: 'F', ftype: http2.FrameType(op.FType), fflags: http2.Flags(op.FFlags), sid: sid, data: hexOrFill(op.Hex, op.N)})
 		case "raw":
 			b, _ := hex.DecodeString(op.Hex)
 			pc.put(outItem{kind: 'X', data: b})
@@ -994,6 +1010,19 @@ type Action struct {
 	FFlag int    `json:"fflags,omitempty"`
 	Hex   string `json:"hex,omitempty"`
 	Tag   int    `json:"tag,omitempty"`
+	N     int    `json:"n,omitempty"` // frame: payload of n filler bytes when hex is empty
+}
+
+func hexOrFill(h string, n int) []byte {
+	if h != "" || n <= 0 {
+		b, _ := hex.DecodeString(h)
+		return b
+	}
+	b := make([]byte, n)
+	for i := range b {
+		b[i] = byte(i*7 + n)
+	}
+	return b
 }
 
 func (w *run) targetConn(a Action) *peerConn {
@@ -1118,7 +1147,10 @@ func (w *run) doAction(a Action) {
 			d[0] = 'F'
 		}
 		d[1], d[2], d[3] = byte(a.Tag>>16), byte(a.Tag>>8), byte(a.Tag)
-		pc.put(outItem{kind: 'P', ping: d})
+		for i := 0; i < max(a.Count, 1); i++ {
+			d[7] = byte(i)
+			pc.put(outItem{kind: 'P', ping: d})
+		}
 	case "goaway":
 		last := uint32(a.Last)
 		if a.Last == -1 {
@@ -1162,8 +1194,10 @@ func (w *run) doAction(a Action) {
 		w.abrupt = true
 		pc.kill("scripted kill")
 	case "frame":
-		b, _ := hex.DecodeString(a.Hex)
-		pc.put(outItem{kind: 'F', ftype: http2.FrameType(a.FType), fflags: http2.Flags(a.FFlag), sid: a.Sid, data: b})
+		cnt := max(a.Count, 1)
+		for i := 0; i < cnt; i++ {
+			pc.put(outItem{kind: 'F', ftype: http2.FrameType(a.FType), fflags: http2.Flags(a.FFlag), sid: a.Sid, data: hexOrFill(a.Hex, a.N)})
+		}
 	case "raw":
 		b, _ := hex.DecodeString(a.Hex)
 		pc.put(outItem{kind: 'X', data: b})
